@@ -22,7 +22,7 @@ pub fn def() -> PropertyDef {
         rule: "case = one synthesized document (1–2 pages, ≤ 4 fonts, ≤ 4 form XObjects nested ≤ 3, resources direct/indirect/inherited from /Pages) whose content streams are rendered from an operator IR over BT/ET, Tf, Tj, TJ (kerning of any magnitude), ', \", Td, TD, Tm, T*, Tc, Tw, Tz (incl. 0 and negative), TL, Ts, Tr 0–7, cm (translate/scale/negative/rotation/general), q/Q (depth ≤ 12), Do (forms with own /Resources and /Matrix; a form sets its own font or inherits the caller's), BMC/BDC/EMC (/Span, /P + MCID, /Artifact, /ActualText inline or through /Properties, direct or indirect); syntax variants: literal/hex strings, optional white space omitted, EOL = LF/CRLF/CR/space, comments, backslash-EOL string continuation, Flate or plain streams, /Contents split into 1–3 streams at an operator or (class split-inside-operator) any token boundary; fonts: standard-14 Type1 with WinAnsi/MacRoman/Standard/built-in encoding, /Differences (AGL names, uniXXXX), encoding dictionary direct or indirect, optional 1-byte ToUnicode; Type0 Identity-H + CIDFontType2 with generated ToUnicode (bfchar, bfrange, array form, 1:n, astral); typically 10–150 operators per page; × 6 option sets (default flat, flat+reading-order, preserve_layout, reorder_columns, 2 random over all booleans, 3 values per threshold, max_extracted_bytes None/16 MiB, CR policies). Each case draws from at most one region with a recorded defect (≈ 5 % of the cases per region, ≈ half outside all). Non-trivial: a page executes ≥ 2 different show operators with ≥ 1 state-changing operator between two shows; distinct by hash of the case. Clauses: conservation (multiset of non-whitespace characters of .text = reference, per option set; artifacts iff include_artifacts; ActualText replaces its scope), fragments-conserve (same for the concatenated fragments under preserve_layout), deterministic (fresh extractor, same extractor again, freshly opened document), document-equals-pages (extract_from_document), not-truncated, extracts (no error).",
         assumptions: &[
             "whitespace = char::is_whitespace on both sides; spaces/newlines inserted or dropped by layout heuristics are not asserted",
-            "alphabet excludes controls, combining marks, spacing accents, ligature code points, soft hyphen, NBSP; '-' is only generated when every option set has merge_hyphenated = false (documented hyphen merging)",
+            "alphabet excludes controls, combining marks, spacing accents, ligature code points, soft hyphen, NBSP; '-' is generated in a quarter of the cases; in 60 % of them every option set has merge_hyphenated = false, in the rest merge_hyphenated stays as configured and conservation is judged modulo '-' (documented de-hyphenation drops a line-final '-' and nothing else: all other characters exactly once, and no more '-' than drawn)",
             "text render mode (Tr 0–7) does not remove text: the documentation names no mode that is dropped",
             "/ActualText (documented: collapse-on-EMC) replaces the text shown inside its scope when ≥ 1 glyph is shown there; nested ActualText, Artifact-inside-ActualText and Do-inside-ActualText are not generated (specification silent / library documents innermost-wins)",
             "/Artifact content is expected iff include_artifacts",
@@ -203,6 +203,11 @@ pub struct Case {
     pub opts: Vec<OptSet>,
     /// '-' may be drawn; merge_hyphenated is forced off in every option set
     pub hyphen_ok: bool,
+    /// with hyphen_ok: merge_hyphenated stays as each option set says, and conservation is judged modulo '-' (the
+    /// documented de-hyphenation drops a line-final '-' and nothing else): every other character exactly once,
+    /// and no more '-' than were drawn
+    #[serde(default)]
+    pub hyphen_merge: bool,
     /// 0 literal strings, 1 hex strings, 2 alternating
     pub hex: u8,
     /// omit optional white space after strings/arrays ((a)Tj, [(a)-5(b)]TJ)
@@ -1668,9 +1673,11 @@ pub fn check(c: &Case) -> Outcome {
     let cause = cause(&w);
     let mut cons_fail: Vec<(usize, String)> = Vec::new();
     let mut frag_fail: Option<String> = None;
+    let modulo_hyphen = c.hyphen_ok && c.hyphen_merge;
+    o.label_if(modulo_hyphen, "hyphen-alphabet,merge-as-configured");
     for (si, s) in c.opts.iter().enumerate() {
         let tag = path_tag(s);
-        let mut ex = extractor(s, c.hyphen_ok);
+        let mut ex = extractor(s, c.hyphen_ok && !c.hyphen_merge);
         let r1 = match run_pages(&doc, &mut ex, np) {
             Ok(r) => r,
             Err(e) => {
@@ -1680,8 +1687,14 @@ pub fn check(c: &Case) -> Outcome {
         };
         // conservation
         for (pi, out) in r1.iter().enumerate() {
-            let exp = multiset(if s.include_artifacts { w.expect[pi].all.iter().copied() } else { w.expect[pi].noart.iter().copied() });
-            let got = multiset(out.text.chars());
+            let mut exp = multiset(if s.include_artifacts { w.expect[pi].all.iter().copied() } else { w.expect[pi].noart.iter().copied() });
+            let mut got = multiset(out.text.chars());
+            if modulo_hyphen && s.merge_hyphenated {
+                let (drawn, shown) = (exp.remove(&'-').unwrap_or(0), got.remove(&'-').unwrap_or(0));
+                if shown > drawn {
+                    got.insert('-', shown - drawn); // more hyphens than were drawn: reported as unexpected
+                }
+            }
             if exp != got {
                 let (missing, extra) = ms_diff(&exp, &got);
                 let other = multiset(if s.include_artifacts { w.expect[pi].noart.iter().copied() } else { w.expect[pi].all.iter().copied() });
@@ -1699,8 +1712,16 @@ pub fn check(c: &Case) -> Outcome {
                 ));
                 break;
             }
-            if s.preserve_layout && multiset(out.frag_text.chars()) != exp {
-                let (missing, extra) = ms_diff(&exp, &multiset(out.frag_text.chars()));
+            let mut fm = multiset(out.frag_text.chars());
+            if modulo_hyphen && s.merge_hyphenated {
+                let drawn = w.expect[pi].all.iter().filter(|c| **c == '-').count() as i64;
+                let shown = fm.remove(&'-').unwrap_or(0);
+                if shown > drawn {
+                    fm.insert('-', shown - drawn);
+                }
+            }
+            if s.preserve_layout && fm != exp {
+                let (missing, extra) = ms_diff(&exp, &fm);
                 frag_fail.get_or_insert(format!("option set {si} ({tag}) page {pi}: fragments missing [{}] unexpected [{}]", missing.trim_end(), extra.trim_end()));
             }
             if out.truncated {
@@ -1712,7 +1733,7 @@ pub fn check(c: &Case) -> Outcome {
             }
         }
         // determinism: a second extractor, and the same extractor again
-        let mut ex2 = extractor(s, c.hyphen_ok);
+        let mut ex2 = extractor(s, c.hyphen_ok && !c.hyphen_merge);
         let again = [run_pages(&doc, &mut ex2, np), run_pages(&doc, &mut ex, np)];
         for (k, r2) in again.iter().enumerate() {
             match r2 {
@@ -1732,7 +1753,7 @@ pub fn check(c: &Case) -> Outcome {
         }
         if si == 0 {
             // whole-document entry point and a freshly parsed document give the same pages
-            let mut ex3 = extractor(s, c.hyphen_ok);
+            let mut ex3 = extractor(s, c.hyphen_ok && !c.hyphen_merge);
             match ex3.extract_from_document(&doc) {
                 Ok(all) => {
                     if all.len() != np || all.iter().zip(&r1).any(|(a, b)| a.text != b.text) {
@@ -1742,7 +1763,7 @@ pub fn check(c: &Case) -> Outcome {
                 Err(e) => o.fail("C11/document-equals-pages", format!("path={tag},error"), format!("{e}")),
             }
             if let Ok(doc2) = open(&bytes) {
-                let mut ex4 = extractor(s, c.hyphen_ok);
+                let mut ex4 = extractor(s, c.hyphen_ok && !c.hyphen_merge);
                 if let Ok(r4) = run_pages(&doc2, &mut ex4, np) {
                     if r4.iter().zip(&r1).any(|(a, b)| a.text != b.text || a.frags != b.frags) {
                         o.fail("C11/deterministic", format!("path={tag},fresh-document"), "a freshly opened document extracts differently".to_string());
@@ -2232,8 +2253,11 @@ pub fn strategy(known: [bool; 10]) -> BoxedStrategy<Case> {
     let region = prop::sample::select(sel);
     let pages = prop_oneof![4 => prop::collection::vec(page(gp), 1..2), 1 => prop::collection::vec(page(gp), 2..3)];
     let opts = (optset(0), optset(1), optset(2), optset(3), optset(4), optset(5)).prop_map(|(a, b, c, d, e, f)| vec![a, b, c, d, e, f]);
-    (prop::collection::vec(font(gp), 1..5), pages, prop::collection::vec(form(gp), 0..5), opts, prop::bool::weighted(0.25), 0u8..3, prop::bool::weighted(0.3), prop_oneof![3 => Just(0u8), 1 => Just(1u8), 1 => Just(2u8), 1 => Just(3u8)], (prop::bool::weighted(gp.p_comment), prop::bool::weighted(gp.p_linecont), region))
-        .prop_map(|(fonts, pages, forms, opts, hyphen_ok, hex, compact, eol, (comments, linecont, region))| restrict(Case { fonts, pages, forms, opts, hyphen_ok, hex, compact, eol, comments, linecont }, region))
+    (prop::collection::vec(font(gp), 1..5), pages, prop::collection::vec(form(gp), 0..5), opts, (prop::bool::weighted(0.25), prop::bool::weighted(0.4)), 0u8..3, prop::bool::weighted(0.3), prop_oneof![3 => Just(0u8), 1 => Just(1u8), 1 => Just(2u8), 1 => Just(3u8)], (prop::bool::weighted(gp.p_comment), prop::bool::weighted(gp.p_linecont), region))
+        .prop_map(|(fonts, pages, forms, opts, (hyphen_ok, hm), hex, compact, eol, (comments, linecont, region))| {
+            let hyphen_merge = hyphen_ok && hm;
+            restrict(Case { fonts, pages, forms, opts, hyphen_ok, hyphen_merge, hex, compact, eol, comments, linecont }, region)
+        })
         .boxed()
 }
 
